@@ -15,12 +15,12 @@ TRUSTED_BASE = [
     "hand-written Lean model of the clp handlers and hooks (lean/Sif/Model/Clp), tied by state-for-state differential execution against the real keeper",
     "Go harness + line protocol + driver parser; x/bank, baseapp cache-context discipline (modelled)",
 ]
-ASSUMPTIONS = ["margin disabled for every pool, liquidity protection inactive, removal lock period 0 in the correspondence histories",
+ASSUMPTIONS = ["removal queue disabled and removal lock period 0 in the correspondence histories (pools may be margin-enabled and carry liabilities / custody; liquidity protection on or off, any threshold asset)",
                "map iterations modelled in sorted order (order-independence is C09)"]
 UNPROVED = [
     "reachable_units_Statement holds only outside finding F17 (AddLiquidity into a pool with an empty side resets pool units): proved as reachable_units_partial under RunOK",
     "payout bound of removals: proved for both calculators (removeUnits_payout_le_prorata, removeBps_payout_le_prorata) and judged on every real removal (c02.payout); the step from the calculator to the handler's bank transfer is the model's finishRemoval, tied by correspondence",
-    "removal queue: margin is disabled in the model slice, so queued-removal processing is not modelled",
+    "removal queue: the clp param EnableRemovalQueue is never persisted by the code, so queued-removal processing cannot be switched on and is not modelled; margin-enabled pools and the pool-health gate of removals are in the slice",
 ]
 MANIFEST = {
     "text": "Units invariant (pool units = sum of provider units, every provider record belongs to a pool) and removal bounds proved in Lean over an exact model of the clp handlers; model tied to the Go keeper by state-for-state differential execution; the invariant predicate itself judged on every implementation state.",
